@@ -238,7 +238,7 @@ function structureCases(thorough) {
 
 /** object and array literals: every sequence of up to 3 (quick) / 4 (thorough) entries over the entry kinds */
 function containerLiterals(thorough) {
-  const objEntries = [['key-data', (i) => `k${i}: d${i}`], ['key-const', (i) => `k${i}: 1`], ['shorthand', (i) => `s${i}`], ['spread', (i) => `...p${i}`], ['key-string', (i) => `'q${i}': d${i}.e`], ['spread-constant', () => '...null'], ['spread-literal', (i) => `...{c${i}: 1}`]]
+  const objEntries = [['key-data', (i) => `k${i}: d${i}`], ['key-const', (i) => `k${i}: 1`], ['shorthand', (i) => `s${i}`], ['spread', (i) => `...p${i}`], ['key-string', (i) => `'q${i}': d${i}.e`], ['spread-constant', () => '...null'], ['key-proto', (i) => `__proto__: d${i}`], ['spread-literal', (i) => `...{c${i}: 1}`]]
   const arrEntries = [['data', (i) => `d${i}`], ['const', () => '1'], ['hole', () => ''], ['spread', (i) => `...p${i}`], ['member', (i) => `d${i}.e[0]`], ['spread-literal', () => '...[1]']]
   const seqs = (entries, max) => { const out = []; const rec = (cur) => { if (cur.length) out.push(cur); if (cur.length === max) return; for (const e of entries) rec([...cur, e]) }; rec([]); return out }
   const out = []
